@@ -15,7 +15,7 @@ RULE = ("sinkenc <kind> <cap> <calls>: Encoder call chains (every integer method
         "Cursor<&mut [u8]>, Cursor<[u8;N]> (N<=40), Cursor<Box<[u8]>>, Writer<limited std::io::Write> (1, 3, 64 bytes per write call) and Vec, at EVERY "
         "capacity 0..=len+1 (long strings: capacities around 0, the head length and the total length); sinkval: minicbor::encode of concrete typed values "
         "(u64, i64, String, ByteVec, Vec<u16>, Option<u32>, (u8,String,bool), BTreeMap<u8,u16>) likewise; sink <kind> <cap> <chunks>: raw write_all "
-        "sequences, exhaustively all sequences of <=3 chunks with lengths 0..=cap+1 for cap<=4 (quick) / <=4 chunks, cap<=5 (thorough) plus seeded random longer ones. "
+        "sequences, exhaustively all sequences of <=3 chunks with lengths 0..=cap+1 for cap<=5 (quick) / <=4 chunks, cap<=6 (thorough) plus seeded random longer ones. "
         "The buffer (0xEE) lies between two 16-byte canary regions.  Oracle computed in the orchestrator from the op alone (own CBOR encoder / own replay of the "
         "call sequence): success iff it fits, accepted bytes = a prefix of the expected encoding (all of it on success), rest of the buffer untouched, canaries "
         "intact, position = bytes accepted, never a panic; then the whole line is compared with the model.  Non-trivial = the op reached the sink.")
@@ -86,11 +86,12 @@ def val_chain(v):
 # ----------------------------------------------------------------------------- judges
 
 def parse_line(line):
-    p = line.split(";")
-    if len(p) != 4 or not p[1].startswith("pos=") or not p[2].startswith("buf=") or not p[3].startswith("canary="):
+    """`<status> pos=<n> buf=<hex> canary=<c>`; the status may contain one space (`err write`)."""
+    p = line.split(" ")
+    if len(p) < 4 or not p[-3].startswith("pos=") or not p[-2].startswith("buf=") or not p[-1].startswith("canary="):
         return None
-    buf = b"" if p[2][4:] == "-" else bytes.fromhex(p[2][4:])
-    return p[0], int(p[1][4:]), buf, p[3][7:]
+    buf = b"" if p[-2][4:] == "-" else bytes.fromhex(p[-2][4:])
+    return " ".join(p[:-3]), int(p[-3][4:]), buf, p[-1][7:]
 
 
 def judge_enc(op, impl, model, spec):
@@ -137,10 +138,10 @@ def judge_raw(op, impl, model, spec):
     status, pos, buf, canary = r
     if kind == "vec":
         exp = b"".join(chunks)
-        good = status == (",".join(["ok"] * len(chunks)) or "-") and buf == exp and pos == len(exp) and canary == "ok"
+        good = status == "seq:" + (",".join(["ok"] * len(chunks)) or "-") and buf == exp and pos == len(exp) and canary == "ok"
     else:
         oks, acc = spec_seq(not kind.startswith("io:"), cap, chunks)
-        good = (status == (",".join(oks) or "-") and canary == "ok" and pos == len(acc) and len(buf) == cap
+        good = (status == "seq:" + (",".join(oks) or "-") and canary == "ok" and pos == len(acc) and len(buf) == cap
                 and buf[:pos] == acc and all(b == 0xEE for b in buf[pos:]))
     if not good:
         return "violation"
@@ -169,7 +170,7 @@ def value_chains(rng, tier):
         out.append([f"f16:{b}"]); out.append([f"f32:{b}"])
     for b in ("0000000000000000", "400921fb54442d18", "7ff8000000000001", "8000000000000001"):
         out.append([f"f64:{b}"])
-    for n in (0, 1, 2, 22, 23, 24, 25, 26, 254, 255, 256, 257):
+    for n in (0, 1, 2, 22, 23, 24, 25, 26, 254, 255, 256, 257) + (() if tier == "quick" else (1000,)):
         data = bytes((i * 7 + 1) % 251 for i in range(n))
         text = bytes(0x61 + (i % 26) for i in range(n))
         out.append([f"bytes:{gen.hexb(data)}"]); out.append([f"str:{gen.hexb(text)}"])
@@ -182,7 +183,7 @@ def value_chains(rng, tier):
             ["begin_str", "str:6162", "str:-", "str:63", "end"],
             ["array:4", "u64:18446744073709551615", "i64:-9223372036854775808", "f16:3c00", "simple:255"],
             ["map:1", "str:" + (b"k" * 24).hex(), "bytes:" + bytes(range(30)).hex()]]
-    for _ in range(40 if tier == "quick" else 400):
+    for _ in range(150 if tier == "quick" else 1500):
         n = rng.randint(2, 6)
         ch = []
         for _ in range(n):
@@ -198,7 +199,7 @@ def value_chains(rng, tier):
 
 
 def caps_for(n, headlen, tier):
-    if n <= (70 if tier == "quick" else 300):
+    if n <= (300 if tier == "quick" else 1200):
         return list(range(0, n + 2))
     s = {0, 1, 2, 3, headlen - 1, headlen, headlen + 1, n // 2, n - 2, n - 1, n, n + 1}
     return sorted(c for c in s if c >= 0)
@@ -218,7 +219,7 @@ def typed_values(rng, tier):
 def raw_sequences(rng, tier):
     """(cap, [chunks]) with distinct running byte values."""
     out = []
-    max_cap, max_len = (4, 3) if tier == "quick" else (5, 4)
+    max_cap, max_len = (5, 3) if tier == "quick" else (6, 4)
     for cap in range(0, max_cap + 1):
         lens = range(0, cap + 2)
         seqs = [[]]
@@ -228,7 +229,7 @@ def raw_sequences(rng, tier):
             seqs += frontier
         for s in seqs:
             out.append((cap, s))
-    for _ in range(600 if tier == "quick" else 20000):
+    for _ in range(4000 if tier == "quick" else 60000):
         cap = rng.choice([0, 1, 2, 3, 5, 8, 13, 16, 24, 32, 40])
         n = rng.randint(1, 10)
         out.append((cap, [rng.choice([0, 1, 1, 2, 3, cap // 2, cap, cap + 1, rng.randint(0, cap + 2)]) for _ in range(n)]))
@@ -244,7 +245,7 @@ def raw_sequences(rng, tier):
 
 
 def nontrivial(op, impl):
-    return ";pos=" in impl
+    return " pos=" in impl
 
 
 def streams(rng, tier):
@@ -268,7 +269,7 @@ def streams(rng, tier):
             ch = [f"{m}:{text.hex()}"]
             exp = enc_chain(ch)
             for cap in caps_for(len(exp), len(exp) - n, tier):
-                for k in ("slice", "cslice", "cbox", "io:64"):
+                for k in ("slice", "cslice", "cbox", "io:4096"):
                     ops.append(f"sinkenc {k} {cap} {ch[0]} #exp:{exp.hex()}")
     s1 = Stream("encoder-into-sinks", "hcore", ops, judge=judge_enc, nontrivial=nontrivial,
                 rule="sinkenc: Encoder call chains x every capacity 0..=len+1 x sink kinds; own-encoder oracle + model")
